@@ -18,11 +18,11 @@ def P(i, kind, q="", ins=(), outs=(), phase="conc"):
 
 
 def scn(name, procs, secrets=("s1",), lq=(("lq1", "UNPAID", "none", ""),), mq=(), used=(), pend=(), signed=(), mutex=True,
-        crash=False, faults=False, ln="truth", releasecheck=True, pollguard=True, pollnotfound=False, checklocked=True, expect="hold"):
+        crash=False, faults=False, ln="truth", releasecheck=True, pollguard=True, pollnotfound=False, checklocked=True, guardfrom="m6", expect="hold"):
     return {"name": name, "secrets": list(secrets), "used": list(used), "pend": [{"s": s, "q": q} for s, q in pend],
             "signed": list(signed), "lq": [{"q": q, "st": st, "pay": pay, "internal": i} for q, st, pay, i in lq],
             "mq": [{"q": q, "st": st, "settled": se} for q, st, se in mq], "mutex": mutex, "crash": crash, "faults": faults, "ln": ln,
-            "releasecheck": releasecheck, "pollguard": pollguard, "pollnotfound": pollnotfound, "checklocked": checklocked, "procs": procs, "expect": expect}
+            "releasecheck": releasecheck, "pollguard": pollguard, "pollnotfound": pollnotfound, "checklocked": checklocked, "guardfrom": guardfrom, "procs": procs, "expect": expect}
 
 
 LQ2 = (("lq1", "UNPAID", "none", ""), ("lq2", "UNPAID", "none", ""))
@@ -99,6 +99,12 @@ def design_scenarios():
         scn("melt-checkstate/check-unlocked", [P(1, "melt", "lq1", ["s1"]), P(2, "checkstate", ins=["s1"])], checklocked=False, expect="fail"),
         scn("pollmelt-checkstate/check-unlocked", [P(1, "pollmelt", "lq1"), P(2, "checkstate", ins=["s1"])], lq=PENDQ, pend=(("s1", "lq1"),),
             checklocked=False, expect="fail"),
+        # a retry of a quote whose first payment attempt failed (the backend still answers FAILED until the new attempt reaches it),
+        # a poll and a swap: holds with the guard registered under the PENDING write, fails when it is registered one storage call later
+        scn("remelt-pollmelt-swap", [P(1, "melt", "lq1", ["s1"]), P(2, "pollmelt", "lq1"), sw(3)], lq=(("lq1", "UNPAID", "failed", ""),)),
+        scn("remelt-checkstate-swap", [P(1, "melt", "lq1", ["s1"]), P(2, "checkstate", ins=["s1"]), sw(3)], lq=(("lq1", "UNPAID", "failed", ""),)),
+        scn("remelt-pollmelt-swap/guard-registered-late", [P(1, "melt", "lq1", ["s1"]), P(2, "pollmelt", "lq1"), sw(3)],
+            lq=(("lq1", "UNPAID", "failed", ""),), guardfrom="m7", expect="fail"),
         scn("melt-poll-melt-swap/no-poll-guard", [P(1, "melt", "lq1", ["s1"]), P(2, "pollmelt", "lq1"), P(3, "melt", "lq1", ["s1"]), sw(4)],
             pollguard=False, expect="fail"),
     ]
@@ -223,6 +229,9 @@ def _state_after_prefix(prefix):
             st["lq"]["lq%d" % st["nlq"]] = {"st": "UNPAID", "pay": "none", "internal": op.get("q", "") if op.get("kind") == "int" else ""}
         elif k == "melt":
             pay = (op.get("pay") or ["success"])[0]
+            if pay == "failed" and (op.get("status") or [""])[0] in ("failed", "notfound"):
+                st["lq"][op["q"]].update(st="UNPAID", pay="failed")      # a failed attempt: released again
+                continue
             if pay != "pending":
                 return None
             st["lq"][op["q"]].update(st="PENDING", pay="inflight")
